@@ -29,6 +29,13 @@ else:
     kf = {"findings": [], "fixed": [
         f"fixed: property=C11 {commit} {src['fixed_text'][f['id']]} (id {f['id']}; demo: {src['demo']}; fix: {src['fix']})"
         for f in src["findings"]]}
+# entries of the second switch (tools/c11_emit_switch.py) are not this tool's business: keep them
+try:
+    old = json.loads((V / "known_findings.d/C11.json").read_text())
+except (OSError, ValueError):
+    old = {}
+kf["findings"] += [f for f in old.get("findings", []) if str(f.get("id", "")).startswith("C11-emit-")]
+kf["fixed"] += [x for x in old.get("fixed", []) if "(id C11-emit-" in x]
 (V / "known_findings.d/C11.json").write_text(json.dumps(kf, indent=1) + "\n")
 subprocess.run([sys.executable, str(V / "tools/mkmanifest.py")], check=True)
 print(f"C11 check now expects the {mode} generator ({want})")
